@@ -4,6 +4,7 @@ import KrakenModel.Proof.C10
 import KrakenModel.Proof.C10Pass
 import KrakenModel.Proof.C10Inv
 import KrakenModel.Proof.C10Evict
+import KrakenModel.Model.CommitWB
 /-
   C10  Files awaiting write-back are never deleted; cleanup removes exactly idle files.
 
@@ -482,6 +483,51 @@ theorem force_cleanup_keeps_protected (i : Input) (s : State) (n : Name) (hp : P
   simp [forceOps, hnd, hp]
 
 end force
+
+/-! ## upload commit: protected before queued -/
+section commit
+open KrakenModel.CommitWB
+
+/-- what must hold in every state, including the ones between the steps of a commit -/
+def QueuedProtected (s : CommitWB.State) : Prop :=
+  (s.queued = true → s.persist = true) ∧ (s.persist = true → s.present = true) ∧ (s.pc = .marked → s.persist = true)
+
+theorem commit_step_inv (s : CommitWB.State) (e : CommitWB.Ev) (h : QueuedProtected s) : QueuedProtected (CommitWB.step s e) := by
+  obtain ⟨pc, present, persist, queued⟩ := s
+  obtain ⟨h1, h2, h3⟩ := h
+  simp only at h1 h2 h3
+  cases e with
+  | delete =>
+    cases persist <;> simp_all [QueuedProtected, CommitWB.step, tryDelete]
+  | prog ok =>
+    cases pc <;> cases ok <;> cases present <;> cases persist <;> cases queued <;>
+      simp_all [QueuedProtected, CommitWB.step]
+
+/-- **C10 (5)** For every history of commit steps (each succeeding or failing) interleaved with any number of
+delete attempts at any point — so also in every intermediate state of the commit —: whenever a write-back task
+for the blob is queued, the blob is marked persist and its data is still in the cache. -/
+theorem queued_implies_protected (evs : List CommitWB.Ev) :
+    let s := CommitWB.run evs
+    s.queued = true → s.persist = true ∧ s.present = true := by
+  have h : QueuedProtected (CommitWB.run evs) := by
+    unfold CommitWB.run
+    suffices ∀ s, QueuedProtected s → QueuedProtected (evs.foldl CommitWB.step s) from
+      this {} (And.intro (fun h => nomatch h) (And.intro (fun h => nomatch h) (fun h => nomatch h)))
+    induction evs with
+    | nil => intro s hs; exact hs
+    | cons e rest ih => intro s hs; exact ih _ (commit_step_inv s e hs)
+  intro s hq
+  exact ⟨h.1 hq, h.2.1 (h.1 hq)⟩
+
+/-- the other order is unsafe: queue, then a delete attempt in the window: a task is queued for a blob that is gone -/
+theorem queueFirst_loses_blob :
+    (runQueueFirst [.prog true, .delete]).queued = true ∧ (runQueueFirst [.prog true, .delete]).present = false := by decide
+
+-- non-vacuity: the commit does reach the queued state, and a delete attempt in the window is refused
+example : (CommitWB.run [.prog true, .delete, .prog true]) = { pc := .done, present := true, persist := true, queued := true } := by decide
+example : (CommitWB.run [.prog true, .delete, .prog false]).queued = false ∧ (CommitWB.run [.prog true, .delete, .prog false]).persist = true := by decide
+
+end commit
 
 /-! ## non-vacuity -/
 
